@@ -16,17 +16,29 @@ theorem invokeStep_noncall (fr : Frame) (body : Body) (callee : CofCfg → Body)
   cases r <;> simp_all
 
 theorem invokeStep_call (fr : Frame) (body : Body) (callee : CofCfg → Body) (s s1 s2 : St) (c : CofCfg) (r : Res)
-    (hb : body s = (s1, .call c)) (hc : callee c s1 = (s2, r)) :
+    (hb : body s = (s1, .call c)) (hc : callee c s1 = (s2, r)) (hco : c.original.truthy = true) :
     invokeStep fr body callee s =
       (resetCounters fr c s2, match r with | .err e _ => .err e true | other => other) := by
   unfold invokeStep
   rw [hb]
-  simp only [hc]
+  simp only [hc, hco, if_true]
   cases r <;> rfl
+
+/-- the `assert call.original_config[1]` in the `finally` of `invoke_step`: when the raw configuration under
+    the instruction's key is falsy (`call: ''`, `call: []`), whatever the called groups ended with is replaced
+    by a fresh AssertionError - a plain error of the step, not marked as handled - raised after the loop
+    counters were written back. -/
+theorem invokeStep_call_assert (fr : Frame) (body : Body) (callee : CofCfg → Body) (s s1 s2 : St) (c : CofCfg) (r : Res)
+    (hb : body s = (s1, .call c)) (hc : callee c s1 = (s2, r)) (hco : c.original.truthy = false)
+    (hf : r ≠ .outOfFuel) :
+    invokeStep fr body callee s = raiseNew (resetLoopCounters fr s2) "AssertionError" "" := by
+  unfold invokeStep
+  rw [hb]
+  simp only [hc, hco, Bool.false_eq_true, if_false]
 
 /-! ### retry -/
 
-theorem retryIter_nonerr (cfg : RetryCfg) (fr : Frame) (inner : Frame → Body) (max : Option Nat)
+theorem retryIter_nonerr (cfg : RetryCfg) (fr : Frame) (inner : Frame → Body) (max : Option Int)
     (fuel k : Nat) (bo : BackoffState) (s s1 : St) (r : Res)
     (hi : inner { fr with retryC := some k } { s with ctx := Ctx.set s.ctx "retryCounter" (.int k) } = (s1, r))
     (hr : r.isErr = false) :
